@@ -15,6 +15,8 @@ TRUSTED = [
     'generated ASCII strings, (b) for every generated diagram that Pony accepts: the registration order of schema.names replayed through the model '
     'registry, every default index / foreign-key name recomputed from its ingredients, the column list of every single-entity table recomputed from '
     'the attributes, and order_tables_to_create recomputed from the sorted tables and their parent sets',
+    'Model/C26Create.v: DBSchema.create_tables as a function of the set of existing object names, tied by histories on a SQLite file (create with model v1, '
+    'drop indexes by raw SQL and/or declare more indexes in v2, generate_mapping(create_tables=True) again): the catalog afterwards must be the model\'s set',
     'case mapping is modelled for ASCII only (str.lower/upper on other characters can change the length); sorting of table names is Python\'s',
     'PostgreSQL / MySQL / Oracle providers are bound through the repo\'s pool mock-up: their DDL is generated and inspected, never executed; only '
     'SQLite executes the DDL (catalog introspection through sqlite_master and PRAGMA table_info / index_list / index_info / foreign_key_list)',
@@ -29,7 +31,8 @@ RULE = ('seeded random entity diagrams (1-4 entities; names short / at the lengt
         'm2m names / non-ASCII; explicit table, column and index names; int and str primary keys, auto keys, composite primary keys, composite keys and '
         'indexes, unique and indexed attributes, nullable strings, single-table inheritance, one-to-many, one-to-one and many-to-many relationships incl. '
         'self references, with and without table=/column=), each on sqlite, postgres, mysql, oracle; non-trivial = Pony accepted the diagram and at least '
-        'two tables or one relationship exist; distinct = distinct (provider, source text)')
+        'two tables or one relationship exist; distinct = distinct (provider, source text); plus evolved-database histories on a SQLite file (v1 created, '
+        'indexes dropped by raw SQL and/or added in v2, create_tables again; non-trivial = the second run had to create something)')
 
 CORPUS = [
     # case-differing attribute names: SQLite column names are case-insensitive
@@ -103,9 +106,30 @@ def run(ctx, n_specs, names=None):
     key = (n_specs, json.dumps(names, sort_keys=True) if names else None)
     if key not in _runs:
         cases = cases_for(ctx, n_specs)
-        res = vlib.run_impl('c26_driver.py', {'cases': cases, 'names': names or []}, timeout=1500)
+        hs = histories_for(ctx, n_specs)
+        res = vlib.run_impl('c26_driver.py', {'cases': cases, 'names': names or [], 'histories': hs}, timeout=1500)
         _runs[key] = (cases, res['cases'], res['names'])
+        _hist[n_specs] = (hs, res['histories'])
     return _runs[key]
+
+
+_hist = {}
+
+HISTORY_CORPUS = [
+    # second release adds index=True to an attribute of an existing table
+    {'source_v1': 'class Person(db.Entity):\n    a0 = Required(str)\n    a1 = Optional(int)\n',
+     'source_v2': 'class Person(db.Entity):\n    a0 = Required(str)\n    a1 = Optional(int, index=True)\n', 'drop': [], 'added': 1},
+    # an index dropped by hand, create_tables again
+    {'source_v1': 'class Person(db.Entity):\n    a0 = Required(str, index=\'ix_a0\')\n    a1 = Optional(int, index=True)\n    composite_index(a0, a1)\n',
+     'source_v2': 'class Person(db.Entity):\n    a0 = Required(str, index=\'ix_a0\')\n    a1 = Optional(int, index=True)\n    composite_index(a0, a1)\n', 'drop': [0, 2], 'added': 0},
+]
+
+
+def histories_for(ctx, n_specs):
+    rng = random.Random(ctx.seed * 7 + 2611)
+    out = list(HISTORY_CORPUS)
+    while len(out) < max(20, n_specs // 2): out.append(gen.gen_history(rng))
+    return out
 
 
 # ------------------------------------------------------------------------------------------------ Coq serialisation
@@ -119,7 +143,7 @@ def cl(xs):
 def cb(b):
     return 'true' if b else 'false'
 
-HEADER = 'Require Import PonyV.Base.PyBase PonyV.Model.C26Schema.\nOpen Scope Z_scope.\n'
+HEADER = 'Require Import PonyV.Base.PyBase PonyV.Model.C26Schema PonyV.Model.C26Create.\nOpen Scope Z_scope.\n'
 
 
 def run_bools(ctx, exprs, chunk=300):
@@ -244,6 +268,20 @@ def correspondence(ctx):
         dist['accepted_schemas'] += 1
         for kind, e in schema_exprs(c, o):
             exprs.append(e); meta.append((kind, {'provider': c['provider'], 'source': c['source']}, o.get('order'))); dist[kind] += 1
+    # create_tables on a database that already holds some of the objects: model = function of the set of existing object names
+    hs, hres = _hist[ctx.scale(80, 1500)]
+    dist['create_tables_histories'] = 0; dist['create_tables_histories_creating_objects'] = 0
+    for h, o in zip(hs, hres):
+        if o['outcome'] != 'ok': continue
+        ids = {}
+        def oid(n): return ids.setdefault(n.lower(), len(ids))
+        lists = cl([cl(['%d%%nat' % oid(n) for _, n in objs]) for objs in o['object_lists']])
+        before = cl(['%d%%nat' % oid(n) for n in o['before']])
+        after = cl(['%d%%nat' % oid(n) for n in o['after']])
+        exprs.append('opt_same_set (create_tables (fun _ => false) %s %s) %s' % (lists, before, after))
+        meta.append(('create_tables', {'history': h}, {'before': o['before'], 'after': o['after'], 'object_lists': o['object_lists']}))
+        dist['create_tables_histories'] += 1
+        if set(o['after']) - set(o['before']): dist['create_tables_histories_creating_objects'] += 1; nontrivial.add(json.dumps(h, sort_keys=True))
     bad = run_bools(ctx, exprs)
     for i in bad[:20]:
         kind, inp, impl = meta[i]
@@ -270,14 +308,30 @@ def search(ctx, deep):
             if key not in failures or len(c['source']) < len(failures[key].data['source']):
                 failures[key] = Failure(key, '%s: %s  [diagram:\n%s]' % (c['provider'], what, c['source'][:600]),
                                         {'provider': c['provider'], 'source': c['source'], 'spec': c['spec']})
+    hs, hres = _hist[n]
+    dist['histories'] = len(hs)
+    for h, o in zip(hs, hres):
+        k = 'history:%s' % o['outcome']
+        dist['outcomes'][k] = dist['outcomes'].get(k, 0) + 1
+        if o['outcome'] == 'ok' and set(o['after']) - set(o['before']): nontriv.add(('history', h['source_v2'], tuple(h['drop'])))
+        for key, what in gen.judge_history(h, o):
+            seen[key] = seen.get(key, 0) + 1
+            if key not in failures or len(json.dumps(h)) < len(json.dumps(failures[key].data.get('history', h))) :
+                failures[key] = Failure(key, 'sqlite file, create with v1 then generate_mapping(create_tables=True) with v2 (dropped before: %r): %s  [v2:\n%s]' % (
+                    o.get('dropped'), what, h['source_v2'][:500]), {'history': h, 'key': key})
     dist['failing_cases_by_key'] = seen
-    return Search(evaluations=len(cases), failures=list(failures.values()), nontrivial=len(nontriv), distribution=dist,
+    return Search(evaluations=len(cases) + len(hs), failures=list(failures.values()), nontrivial=len(nontriv), distribution=dist,
                   samples=[{'provider': cases[-1]['provider'], 'source': cases[-1]['source']}])
 
 
 _replayed = {}
 
 def replay(ctx, data):
+    if 'history' in data:
+        o = vlib.run_impl('c26_driver.py', {'histories': [data['history']]}, timeout=300)['histories'][0]
+        for key, w in gen.judge_history(data['history'], o):
+            if data.get('key') is None or key == data['key']: return Failure(key, w, data)
+        return None
     case = {'provider': data['provider'], 'source': data['source'], 'spec': data['spec']}
     k = (data['provider'], data['source'])
     if k not in _replayed:
@@ -302,7 +356,8 @@ LEVEL_TEXT = ('Machine-checked proof (Coq 8.16.1) over a hand-written model of P
               'object names (registry invariant by induction over the registrations) and every name produced by a default-name function is within the '
               'dialect\'s max_name_len, for all dialects and all ASCII entity / attribute / column names (C26_names, C26_normalize); '
               'order_tables_to_create returns a permutation and, when the foreign-key graph is acyclic, puts every table after its parents (C26_order, '
-              'C26_order_parents_first); Column registration yields one column per mapped attribute column with the declared nullability (C26_columns). '
+              'C26_order_parents_first); Column registration yields one column per mapped attribute column with the declared nullability (C26_columns); '
+              'create_tables over a database holding any subset of the declared objects leaves all of them existing (C26_create_tables). '
               'One default name (sequence suffix of a repeated many-to-many table) is refuted. Tied to the implementation by vm_compute correspondence on '
               'four providers and by catalog introspection of the schemas SQLite actually creates.')
 LEVEL_NOTE = ('The model covers naming, the registry, column registration and table ordering, not the whole of generate_mapping (which attribute gets which '
